@@ -7,7 +7,7 @@ from refgen import *
 
 PV_RE = re.compile(r'^<<"PV", \{(.*?)\}, "(.*?)", (\d+), "(.*?)">>$')
 ADDR = {"s1": ["10.1.0.5", "10.1.255.254", "2001:db8:1::7", "::ffff:10.1.3.4"], "s2": ["10.2.0.9"]}
-USERS = ["alice", "bob", "carol", "dave", "erin", "frank", "gina", "hank", "nobody", ""]
+USERS = ["alice", "bob", "carol", "dave", "erin", "frank", "gina", "hank", "ivan", "judy", "nobody", ""]
 
 
 def pw_class(rng, cfg, scope, name, tag):
@@ -22,7 +22,7 @@ def pw_class(rng, cfg, scope, name, tag):
         other = pw_of(cfg, "s2" if scope == "s1" else "s1", name) or pw_of(cfg, scope, "alice")
         return other or "wrong-%s" % tag
     if k < 0.8:
-        return "g2-pw-" + tag if tag else "g2-pw"      # the second group's password
+        return rng.choice(["g2", "g1", "g4"]) + ("-pw-" + tag if tag else "-pw")      # another group's password
     if k < 0.85 and right:
         return right + "x"
     if k < 0.9 and right:
@@ -33,6 +33,8 @@ def pw_class(rng, cfg, scope, name, tag):
 def login_script(rng, cfg, scope, tag):
     name = rng.choice(USERS)
     pw = pw_class(rng, cfg, scope, name, tag)
+    if rng.random() < 0.08:
+        pw = list(("Zx9-p%s-" % tag).encode()) + [rng.choice([0xe4, 0xf6, 0x80, 0xff])] + list(b"ss")      # a password with an octet above 0x7f
     k = rng.random()
     if k < 0.3:
         minor = 1 if rng.random() < 0.8 else 0
@@ -124,8 +126,20 @@ def policy_cfg(rng, tag):
                      "opt": rng.random() < 0.3} for _ in range(rng.randint(1, 2))]
             out.append({"name": nm, "match": match, "set": sets, "opt": rng.random() < 0.3})
         return out
+    def shadow_rules():
+        # a deny rule whose pattern needs whole-string / longest-alternative matching, shadowing a later permit
+        w = rng.sample(ALPH, 2)
+        shapes = [{"t": "alt", "l": word(w[0][:1]), "r": word(w[0])},
+                  {"t": "alt", "l": word(w[0]), "r": {"t": "cat", "l": word(w[0]), "r": {"t": "cat", "l": lit(32), "r": word(w[1])}}},
+                  {"t": "cat", "l": word(w[0]), "r": {"t": "star", "r": {"t": "any"}, "lazy": True}},
+                  {"t": "alt", "l": word(w[0]), "r": word(w[1])}]
+        a = rng.choice(shapes)
+        cmd = rng.choice(CMDS)
+        first = {"name": cmd, "match": [{"s": render(a), "ast": strip_lazy(a)}], "action": 1}
+        later = rng.choice([{"name": "*", "match": [], "action": 2}, {"name": cmd, "match": [], "action": 2}])
+        return [first, later]
     for u in cfg["users"]:
-        u["commands"] = rules(rng.randint(0, 3))
+        u["commands"] = shadow_rules() if rng.random() < 0.3 else rules(rng.randint(0, 3))
         u["services"] = services(rng.randint(0, 2))
         for g in u["groups"]:
             g["commands"] = rules(rng.randint(0, 2))
@@ -133,7 +147,55 @@ def policy_cfg(rng, tag):
     return cfg
 
 
+def directed_author(rng, cfg, scope):
+    """a request derived from the policy itself: aims at a rule / service of a user of the scope"""
+    cands = [u for u in cfg["users"] if scope in u["scopes"]]
+    u = rng.choice(cands)
+    cmds = u["commands"] + [c for g in u["groups"] for c in g["commands"]]
+    svcs = u["services"] + [s for g in u["groups"] for s in g["services"]]
+    if cmds and (rng.random() < 0.6 or not svcs):
+        rule = rng.choice(cmds)
+        cmd = rule["name"].strip()
+        if cmd == "*":
+            cmd = rng.choice(CMDS)
+        target = None
+        pats = [p for p in rule["match"] if p["ast"]["t"] != "invalid"]
+        if pats and rng.random() < 0.8:
+            target = sample(rng, rng.choice(pats)["ast"])
+        if target is None:
+            target = list(" ".join(rng.choice(ALPH) for _ in range(rng.randint(0, 2))).encode())
+        k = rng.random()
+        if k < 0.15 and target:
+            target = target[:-1]
+        elif k < 0.3:
+            target = target + list(rng.choice([b" ;", b"x", b" reload", b" "]))
+        elif k < 0.4:
+            target = list(rng.choice([b"x ", b"; "])) + target
+        words = bytes(target).split(b" ") if target else []
+        args = [list(b"service=shell"), list(b"cmd=" + cmd.encode())] + [list(b"cmd-arg=" + w) for w in words]
+        if rng.random() < 0.3:
+            args.append(list(b"cmd-arg=<cr>"))
+        return author(u["name"], args)
+    if svcs:
+        s = rng.choice(svcs)
+        sep = rng.choice(["=", "=", "*"])
+        args = [("service" + sep + s["name"]).encode()]
+        for m in s["match"]:
+            val = m["values"][0] if m["values"] and rng.random() < 0.7 else rng.choice(["s1", "s2", "ip", "nope"])
+            if m["name"] == "scope" and rng.random() < 0.5:
+                continue        # leave it to the connection's own scope
+            args.append((m["name"] + "=" + val).encode())
+        if rng.random() < 0.35:
+            args.insert(rng.randint(0, len(args)), ("scope=" + rng.choice(["s1", "s2"])).encode())   # the client claims a scope itself
+        if rng.random() < 0.2:
+            args.append(rng.choice([b"protocol=ip", b"protocol*ip", b"cmd*", b"priv-lvl=1"]))
+        return author(u["name"], [list(a) for a in args])
+    return author(u["name"], [list(b"service=shell"), list(b"cmd=show")])
+
+
 def author_script(rng, cfg, scope, tag):
+    if rng.random() < 0.6:
+        return [(directed_author(rng, cfg, scope), rng.randint(0, 1), [])]
     name = rng.choice(["alice", "bob", "frank", "carol", "erin", "nobody"])
     if rng.random() < 0.6:
         cmd = rng.choice(CMDS + ["sho"])
@@ -238,7 +300,7 @@ def exhaustive_c09(rng, tag, limit):
     return out
 
 
-def run(ctx, prop):
+def collect(ctx, prop):
     quick = ctx.tier == "quick"
     rng = random.Random(ctx.seed * 31337 + int(prop[1:]))
     tag = "%x" % rng.getrandbits(24)
@@ -296,11 +358,9 @@ def run(ctx, prop):
            "rule": "scenario = configuration + packets of 1-3 sessions interleaved on 1-2 connections of the real reference server; non-trivial = distinct step list with >= 2 packets",
            "samples": [slim(scen[0]), slim(scen[-1])], "steps": nsteps, "events": stats.get("events"),
            "model_divergences": len(divs), "first_divergences": divs[:5], "other_property_observations": sorted(others), "exhaustive": False}
-    return conclude(ctx, "model_checking", cov,
-                    ["the abstract configuration in the trace is the one the harness rendered into the real config.ServerConfig (bcrypt hashes at MinCost)",
+    return cov, ["the abstract configuration in the trace is the one the harness rendered into the real config.ServerConfig (bcrypt hashes at MinCost)",
                      "pattern text and its AST are produced together by the generator (lib/refgen.py render)",
-                     "connections are scripted in-memory objects; packets are fed one at a time (quiescence between packets)"],
-                    found)
+                     "connections are scripted in-memory objects; packets are fed one at a time (quiescence between packets)"], found
 
 
 def slim(s):
@@ -325,3 +385,8 @@ def replay(ctx, prop, obj):
             print(line)
             hit = hit or ('"PV"' in line and prop in line)
     return 1 if hit else 0
+
+
+def run(ctx, prop):
+    cov, assumptions, found = collect(ctx, prop)
+    return conclude(ctx, "model_checking", cov, assumptions, found)
